@@ -66,9 +66,14 @@ def metaStr (r : Rep) (m : Meta) : String :=
 /-- float tie zone at the *gone* boundary: at an exact tie the implementation may answer either way -/
 def withGoneTie (a : Asset) (r : Rep) (cfg : Cfg) (m : Meta) (nowMS : Nat) (out : String) : String :=
   let wrapTime := m.newTime - m.origTime
-  match goneSlack ((r.seg m.origIdx).stop + wrapTime + cfg.startS * r.T) r.T nowMS cfg.tsbdS cfg.ato with
+  let availNum := (r.seg m.origIdx).stop + wrapTime + cfg.startS * r.T
+  match goneSlack availNum r.T nowMS cfg.tsbdS cfg.ato with
   | some 0 => s!"ALT {out} || 410"
-  | _ => out
+  | _ =>
+    -- exact tie at the availability instant with a non-zero offset: the float subtraction may round up
+    match cfg.ato with
+    | .ms (a+1) => if (availNum : Int) * 1000 - ((a+1 : Nat) : Int) * r.T = (nowMS : Int) * r.T then s!"ALT {out} || 425 ms=0" else out
+    | _ => out
 
 def opSeg (st : DState) (args : List String) : String :=
   match args with
